@@ -62,6 +62,7 @@ type MarkdownWriter struct {
 	output    strings.Builder
 	imageNum  int
 	footnotes []string
+	inList    bool // 上一个输出的块是列表项
 }
 
 // Write 生成Markdown内容
@@ -115,6 +116,11 @@ func (w *MarkdownWriter) writeParagraph(para *document.Paragraph) error {
 
 	// 检查段落样式
 	style := w.getParagraphStyle(para)
+
+	// 列表之后的非列表块前需要空行，否则会被解析为最后一个列表项的续行
+	if strings.HasPrefix(style, "Heading") || style == "Quote" || style == "CodeBlock" || !w.isListParagraph(para) {
+		w.endList()
+	}
 
 	switch {
 	case strings.HasPrefix(style, "Heading"):
@@ -203,8 +209,17 @@ func (w *MarkdownWriter) writeListItem(para *document.Paragraph) error {
 	}
 
 	w.output.WriteString(marker + " " + text + "\n")
+	w.inList = true
 
 	return nil
+}
+
+// endList 在列表结束后写入空行
+func (w *MarkdownWriter) endList() {
+	if w.inList {
+		w.output.WriteString("\n")
+		w.inList = false
+	}
 }
 
 // writeNormalParagraph 写入普通段落
@@ -230,6 +245,8 @@ func (w *MarkdownWriter) writeTable(table *document.Table) error {
 	if table == nil || len(table.Rows) == 0 {
 		return nil
 	}
+
+	w.endList()
 
 	if !w.opts.UseGFMTables {
 		return w.writeSimpleTable(table)
